@@ -209,6 +209,12 @@ func glob3(c *Ctx) {
 // derivedFrom reports whether v is computed only from the given roots (and
 // constants), through field/index/deref/conversion instructions.
 func derivedFrom(v ssa.Value, roots map[ssa.Value]bool) bool {
+	return derivedFromIn(v, roots, nil)
+}
+
+// derivedFromIn is derivedFrom where phis of block hdr (values carried from
+// one iteration to the next) do not count as derived.
+func derivedFromIn(v ssa.Value, roots map[ssa.Value]bool, hdr *ssa.BasicBlock) bool {
 	seen := map[ssa.Value]bool{}
 	var walk func(v ssa.Value) bool
 	walk = func(v ssa.Value) bool {
@@ -241,6 +247,9 @@ func derivedFrom(v ssa.Value, roots map[ssa.Value]bool) bool {
 		case *ssa.MakeInterface:
 			return walk(x.X)
 		case *ssa.Phi:
+			if hdr != nil && x.Block() == hdr {
+				return false // loop-carried: depends on the iteration order
+			}
 			for _, e := range x.Edges {
 				if !walk(e) {
 					return false
@@ -324,7 +333,7 @@ func glob4(c *Ctx) {
 							problems = append(problems, fmt.Sprintf("map update at %s with a key other than the iteration key", c.P.Pos(x.Pos())))
 						}
 					case *ssa.Store:
-						if !derivedFrom(x.Addr, roots) {
+						if !derivedFromIn(x.Addr, roots, hdr) {
 							problems = append(problems, fmt.Sprintf("store at %s to an address not derived from the iteration key/value", c.P.Pos(x.Pos())))
 						}
 					case ssa.CallInstruction:
@@ -335,11 +344,11 @@ func glob4(c *Ctx) {
 							}
 						}
 						if cc.IsInvoke() {
-							if !derivedFrom(cc.Value, roots) {
+							if !derivedFromIn(cc.Value, roots, hdr) {
 								problems = append(problems, fmt.Sprintf("invoke %s at %s on a receiver not derived from the iteration key/value", cc.Method.Name(), c.P.Pos(x.Pos())))
 							}
 							for _, a := range cc.Args {
-								if !derivedFrom(a, roots) {
+								if !derivedFromIn(a, roots, hdr) {
 									problems = append(problems, fmt.Sprintf("invoke %s at %s with an argument not derived from the iteration key/value", cc.Method.Name(), c.P.Pos(x.Pos())))
 								}
 							}
@@ -349,9 +358,9 @@ func glob4(c *Ctx) {
 					case *ssa.Return:
 						notes = append(notes, "returns from inside the loop (order decides only which of several errors is returned)")
 						for _, r := range x.Results {
-							if !derivedFrom(r, roots) {
+							if !derivedFromIn(r, roots, hdr) {
 								// the returned value must itself come from a per-key effect
-								if call, ok := r.(*ssa.Call); ok && call.Call.IsInvoke() && derivedFrom(call.Call.Value, roots) {
+								if call, ok := r.(*ssa.Call); ok && call.Call.IsInvoke() && derivedFromIn(call.Call.Value, roots, hdr) {
 									continue
 								}
 								problems = append(problems, fmt.Sprintf("return at %s of a value not derived from the iteration key/value", c.P.Pos(x.Pos())))
